@@ -62,6 +62,9 @@ CLAIMED = {
  "C13": dict(level="exploration", technique="property-based testing (rapid) + fixed grid over the time-budget function (verif wrapper); generated searches under depth / node / movetime / searchmoves limits",
    text="The time budget is computed for ~70k drawn and gridded parameter combinations (remaining 1 ms-3 h, increment up to 50x remaining, movestogo 0-80, all game phases, both colours) and must not exceed the remaining clock nor, repeated movestogo (or 15) times, the remaining time plus increments; depth-limited searches must complete exactly d iterations (1 for single-move roots), node-limited searches must stop within the overshoot allowance, movetime searches within movetime + 250 ms (re-confirmed), and with searchmoves (API and UCI line) the best move must be in the list.",
    note="Timing part is few, serial cases with a generous allowance; a regression smaller than the allowance is invisible.", ref="DESIGN.md §2 C13"),
+ "C14": dict(level="exploration", technique="property-based testing (rapid), stateful: generated controller histories with schedule perturbation (injected delays at hooked lifecycle points, GOMAXPROCS) + the Go race detector as a monitor over the same histories",
+   text="Generated controller histories over one Search (all lifecycle calls, start-while-running, restarts within the timer's 5 ms poll window) run with generated delays between calls and inside the run/timer goroutines under GOMAXPROCS 1/2/4/16; every call must return within the watchdog, results must equal accepted starts and each must be a legal move of its own search's position, infinite/ponder searches must not answer before stop/ponderhit, undisturbed depth-limited searches must complete all iterations. The same histories run in a -race build; every report of the race detector is a violation, identified by the unordered pair of innermost engine functions.",
+   note="The Go scheduler is not controlled: interleavings are sampled, windows are widened by injected delays. 'Never deadlocks' is checked as 'no call exceeded 10 s in N histories'. Race reports that involve the process-wide logger set-up in a constructor (logging.GetLog) are a harness artefact (one engine per process in production) and are ignored.", ref="DESIGN.md §2 C14"),
 }
 
 NOT_YET = "check not built yet in this session (work in progress; see DESIGN.md)"
